@@ -13,7 +13,7 @@ dimensions), `NPWF` (valid PERCENTILE-free fields, GROUP BY expressions read the
 their params, no dimension called `_crosstab`), and for list equality of ORDER BY results
 that ORDER BY decides (`StrictTotalOn`); without it the results are equal as multisets.
 -/
-import ZenoModel.Lemmas.PlanCluster
+import ZenoModel.Lemmas.PlanInSub
 import ZenoModel.Lemmas.PlanText
 
 namespace Zeno.C11
@@ -246,6 +246,103 @@ theorem cluster_equiv_unordered (h : DKey → Nat) (pk : List String) (n : Nat) 
       have ih' := ih hwf.2 hnp.2.2
       simp only [clusterRun, hp', Bool.false_eq_true, if_false, runTree]
       exact run_perm x hnp.1 hnp.2.1 _ (ih'.map _)
+
+/-! ## IN-subqueries
+
+`planSubQueries` plans every IN-subquery of a WHERE with `Plan` and `Opts.IsSubQuery`: with
+`QueryCluster` set it is a statement planned for the cluster like any other, and the distinct
+values of its dimension become the IN list — the WHERE function — of the enclosing statement.
+The theorems above apply to the sub-query's own tree; these state the consequence for the IN
+list. -/
+
+/-- `IsSubQuery` replaces the fields and nothing else: the pushdown decision of an
+    IN-subquery is `pushdownAllowed` of the sub-query's own tree (GROUP BY, HAVING, ORDER BY /
+    LIMIT of its FROM-subqueries, partition keys). -/
+theorem in_subquery_decision (pk : List String) (t : QTree) :
+    pushdownAllowed pk (asSub t) = pushdownAllowed pk t :=
+  pushdownAllowed_asSub pk t
+
+/-- An IN-subquery that is pushed down whole because `pushdownAllowed` says so (no LIMIT;
+    ORDER BY deciding or absent) gives the leader exactly the IN list of the local plan — with
+    HAVING, since every group of the sub-query then lives on one partition. -/
+theorem in_subquery_pushdown_equiv (h : DKey → Nat) (pk : List String) (n : Nat) (t : QTree)
+    (s : Src) (dim : String) (hwf : TreeWF (asSub t)) (hp : pushdownAllowed pk t = true)
+    (parts : List (List PRow)) (hr : Routed (fun r => partitionFor h pk r.key n) parts)
+    (hl : (asSub t).top.olo.limit = 0) (ho : (asSub t).top.olo.offset = 0)
+    (hord : (asSub t).top.olo.orderBy ≠ [] →
+      StrictTotalOn (less (asSub t).top.olo.orderBy) (runTreePre x (asSub t) s parts.flatten)) :
+    inListCluster x pk parts t s dim = inListLocal x t s dim parts.flatten := by
+  unfold inListCluster inListLocal
+  rw [pushdown_equiv x h pk n (asSub t) s hwf (by rw [in_subquery_decision]; exact hp) parts hr hl ho hord]
+
+/-- … and with ORDER BY … LIMIT k in the sub-query (ORDER BY deciding). -/
+theorem in_subquery_pushdown_limit_equiv (h : DKey → Nat) (pk : List String) (n : Nat) (t : QTree)
+    (s : Src) (dim : String) (hwf : TreeWF (asSub t)) (hp : pushdownAllowed pk t = true)
+    (parts : List (List PRow)) (hr : Routed (fun r => partitionFor h pk r.key n) parts)
+    (hob : (asSub t).top.olo.orderBy ≠ []) (hl : (asSub t).top.olo.limit > 0)
+    (hord : StrictTotalOn (less (asSub t).top.olo.orderBy) (runTreePre x (asSub t) s parts.flatten))
+    (hnd : (runTreePre x (asSub t) s parts.flatten).Nodup) :
+    inListCluster x pk parts t s dim = inListLocal x t s dim parts.flatten := by
+  unfold inListCluster inListLocal
+  rw [pushdown_equiv_limit x h pk n (asSub t) s hwf (by rw [in_subquery_decision]; exact hp)
+    parts hr hob hl hord hnd]
+
+/-- Whatever the planner decides for the sub-query (pushdown where allowed, else partition-side
+    pre-aggregation with the HAVING condition as a field and HAVING evaluated on the leader,
+    else the enclosing SELECT over the cluster plan of its FROM-subquery), the leader's IN
+    list has the members of the local plan's, so the enclosing statement filters with the same
+    WHERE function on every partition (sub-queries without ORDER BY / LIMIT). -/
+theorem in_subquery_equiv (h : DKey → Nat) (pk : List String) (n : Nat) (t : QTree) (s : Src)
+    (dim : String) (hwf : TreeWF (asSub t)) (hnp : TreeNP (asSub t))
+    (parts : List (List PRow)) (hr : Routed (fun r => partitionFor h pk r.key n) parts) :
+    whereIn dim (inListCluster x pk parts t s dim) = whereIn dim (inListLocal x t s dim parts.flatten) := by
+  apply whereIn_congr
+  intro v
+  exact inList_of_perm dim (cluster_equiv_unordered x h pk n s parts hr (asSub t) hwf hnp) v
+
+/-- … and for a table sub-query with a deciding ORDER BY and LIMIT that is not pushed down. -/
+theorem in_subquery_nonpushdown_equiv (pk : List String) (q : Query) (s : Src) (dim : String)
+    (hq : NPWF (asSubQ q)) (parts : List (List PRow))
+    (hp : pushdownAllowed pk (.table q) = false)
+    (hob : (asSubQ q).olo.orderBy ≠ [])
+    (hord : StrictTotalOn (less (asSubQ q).olo.orderBy)
+      (runPre x (asSubQ q) s (cvOf (asSubQ q) s parts.flatten) parts.flatten)) :
+    inListCluster x pk parts (.table q) s dim = inListLocal x (.table q) s dim parts.flatten := by
+  unfold inListCluster inListLocal
+  have hp' : pushdownAllowed pk (asSub (.table q)) = false := by rw [in_subquery_decision]; exact hp
+  show inList dim (clusterRun x pk parts (.table (asSubQ q)) s) = inList dim (run x (asSubQ q) s parts.flatten)
+  rw [clusterRun_nonpushdown x pk parts (asSubQ q) s hp', nonpushdown_equiv x (asSubQ q) hq s parts hob hord]
+
+/-- The regression "an IN-subquery may always be pushed down, only the distinct values of its
+    dimension matter": `WHERE x IN (SELECT x FROM t GROUP BY x HAVING a > 130)` on a table
+    partitioned by `y`.  The group x = p has 60 on one partition and 120 on the other (total
+    180): pushed down whole, no partition lets it pass and the IN list is empty; the local
+    plan and the real cluster plan (which refuses the pushdown) both yield [p]. -/
+def inSubQ : Query :=
+  { fields := [("x", .agg .sum (.field "x"))],
+    having := some (.bin .gt (.agg .sum (.field "a")) (.const 130)),
+    by_ := [dimGB "x"], byAll := false }
+
+def inSubRows : List PRow :=
+  [⟨[("x", .str "p"), ("y", .int .int 1)], 10, [("_point", 1), ("a", 60)]⟩,
+   ⟨[("x", .str "p"), ("y", .int .int 2)], 10, [("_point", 1), ("a", 120)]⟩,
+   ⟨[("x", .str "q"), ("y", .int .int 1)], 10, [("_point", 1), ("a", 100)]⟩]
+
+def inSubHash : DKey → Nat := fun k => match k.get "y" with
+  | some (.int _ 1) => 0
+  | _ => 1
+
+def inSubSrc : Src := { res := 1, hi := 10 }
+
+def inSubParts : List (List PRow) :=
+  splitBy (fun r => partitionFor inSubHash ["y"] r.key 2) 2 inSubRows
+
+theorem in_subquery_forced_pushdown_differs :
+    pushdownAllowed ["y"] (.table inSubQ) = false ∧
+    inList "x" (forcedPushdown default inSubParts (asSub (.table inSubQ)) inSubSrc) = [] ∧
+    inListCluster default ["y"] inSubParts (.table inSubQ) inSubSrc "x" = [some (.str "p")] ∧
+    inListLocal default (.table inSubQ) inSubSrc "x" inSubParts.flatten = [some (.str "p")] := by
+  decide +kernel
 
 /-! ## the rewrite as text -/
 
